@@ -428,6 +428,14 @@ theorem treePush_stk (H : HashFn) {L : List Bytes} {t : Tree} (d : Bytes)
 non-vacuity examples and the kernel-evaluated witnesses -/
 def toyHash : HashFn := fun b => if b = [] then emptySum else b
 
+/-- pushing `leaves` one by one into a storage-backed tree (`MerkleTree::push`) -/
+def treePushAll (H : HashFn) : Tree → List Bytes → Except Err Tree
+  | t, [] => .ok t
+  | t, d :: ds =>
+    match t.push H d with
+    | .error e => .error e
+    | .ok t' => treePushAll H t' ds
+
 def fiveLeavesV : List Bytes := [[1], [], [2, 2], [3], [4]]
 
 end FuelVerif.BMT
